@@ -5,7 +5,7 @@
 From Coq Require Import Permutation.
 From Sakura.Model Require Import Base Cursor Length Event Song Token LoopMachine LexCore RunCore Tie Compile.
 From Sakura.Spec Require Import LenSpec NoteSem LoopSpec.
-From Sakura.Proofs Require Import LengthP LoopP BlockP NoteSimDefs NoteSimP NoteStructP.
+From Sakura.Proofs Require Import IdleP LengthP LoopP BlockP NoteSimDefs NoteSimP NoteStructP.
 Open Scope Z_scope.
 
 (* ------------------------------------------------------------------------------------------------ *)
@@ -140,7 +140,7 @@ Qed.
 Ltac cur_eqs' HR :=
   let H := fresh "Hcr" in
   pose proof (R_cur _ _ HR) as H;
-  destruct H as (Epos' & Ech' & Elen' & Eoct' & Evel' & Egate' & Etim' & Ekey' & Etie' & Eperm').
+  destruct H as (Epos' & Ech' & Elen' & Eoct' & Evel' & Egate' & Etim' & Ekey' & Etie' & Ersv' & Eperm').
 
 Lemma prog_cmd_sub body : prog_cmd (CSub body) = PCons (Leaf (TSub (TLineNo 0 :: tokens_of body))) PNil.
 Proof. reflexivity. Qed.
@@ -217,7 +217,7 @@ Proof. unfold with_cur. cbn [p_tracks p_cur p_tb p_keyflag p_keyshift p_oct_once
 
 (* a lettered note while a chord is open: it is only collected *)
 Lemma exec_note_chord S base flag natural len qlen vel timing oct :
-  s_octave_once S = 0 -> s_harmony_flag S = true ->
+  s_octave_once S = 0 -> s_harmony_flag S = true -> cur_ok S -> tr_rsv (cur_track S) = rsv_new ->
   exec_note S base flag natural len qlen vel timing oct 0 =
   let trk := cur_track S in
   let notelen := calc_length len (s_timebase S) (tr_length trk) in
@@ -230,9 +230,9 @@ Lemma exec_note_chord S base flag natural len qlen vel timing oct :
                   (note_len_real notelen (if qlen =? 0 then tr_qlen trk else qlen))
                   (value_range 0 (if vel <? 0 then tr_velocity trk else vel) 127)])).
 Proof.
-  intros Ho Hh. unfold exec_note.
+  intros Ho Hh Hc Hi. rewrite (exec_note_idle S _ _ _ _ _ _ _ _ _ Hc Hi). unfold exec_note_plain.
   set (ev := ev_note _ _ _ _ _). set (nl := calc_length len _ _). cbv zeta.
-  unfold emit_note.
+  unfold emit_note_plain.
   set (s1 := upd_cur S (fun t => tr_set_timepos t (tr_timepos t + nl))).
   change (s_octave_once s1) with (s_octave_once S). rewrite Ho. cbn [Z.eqb].
   change (s_harmony_flag s1) with (s_harmony_flag S). rewrite Hh.
@@ -282,6 +282,13 @@ Section Chord.
   Proof.
     unfold cstate. change (cur_track (s_set_harmony (upd_cur s0 (fun _ => T)) fl c_tp evs)) with (cur_track (upd_cur s0 (fun _ => T))).
     apply cur_track_upd_cur. apply (R_cur_ok s0 p HR).
+  Qed.
+
+  Lemma cstate_cur_ok fl T evs : cur_ok (cstate fl T evs).
+  Proof.
+    unfold cur_ok, cstate. change (s_cur (s_set_harmony (upd_cur s0 (fun _ => T)) fl c_tp evs)) with (s_cur s0).
+    change (s_tracks (s_set_harmony (upd_cur s0 (fun _ => T)) fl c_tp evs)) with (s_tracks (upd_cur s0 (fun _ => T))).
+    apply (cur_ok_upd_cur s0 _ (R_cur_ok s0 p HR)).
   Qed.
 
   Lemma cstate_upd fl T evs f fl' evs' :
@@ -335,7 +342,8 @@ Section Chord.
     tr_timepos T = c_tp /\ tr_length T = c_len0 /\ tr_qlen T = c_q0 /\
     tr_timepos T = t_pos U /\ tr_channel T = t_ch U /\ tr_length T = t_len U /\ tr_octave T = t_oct U /\
     tr_velocity T = t_vel U /\ tr_qlen T = t_gate U /\ tr_timing T = t_timing U /\ tr_track_key T = t_key U /\
-    tr_tie_notes T = [] /\ Permutation (notes_of (tr_events T) ++ notes_of (map fin evs)) (t_notes U).
+    tr_tie_notes T = [] /\ tr_rsv T = rsv_new /\
+    Permutation (notes_of (tr_events T) ++ notes_of (map fin evs)) (t_notes U).
 
   Lemma cinv_init : cinv (cur_track s0) (cur p) [].
   Proof.
@@ -385,7 +393,7 @@ Section Chord.
       SEM ec (prog_cmd x) (Ok (cstate true T evs)) = Ok (cstate true T' evs') /\
       chord_step f c_start c_l c_g vel (cperf U) x = cperf U' /\ cinv T' U' evs'.
   Proof.
-    intros Hx Hd (I1 & I2 & I3 & I4 & I5 & I6 & I7 & I8 & I9 & I10 & I11 & I12 & I13).
+    intros Hx Hd (I1 & I2 & I3 & I4 & I5 & I6 & I7 & I8 & I9 & I10 & I11 & I12 & Irs & I13).
     pose proof HR as (_ & _ & _ & _ & _ & _ & _ & _ & _ & _ & Hoo & Hbf & _).
     assert (Hbf' : s_break_flag (cstate true T evs) = 0) by exact Hbf.
     destruct x; try discriminate Hx.
@@ -394,7 +402,7 @@ Section Chord.
       change (prog_cmd (CNote base acc natural None None None None None))
         with (PCons (Leaf (TNote base acc (if natural then 1 else 0) [] 0 (-1) ISIZE_MIN (-1) 0)) PNil).
       rewrite SEM_leaf by exact Hbf'. cbn [step_song].
-      rewrite exec_note_chord by (first [exact Hoo | reflexivity]). cbv zeta.
+      rewrite exec_note_chord by (first [exact Hoo | reflexivity | apply cstate_cur_ok | rewrite cur_cstate; exact Irs]). cbv zeta.
       change (s_harmony_time (cstate true T evs)) with c_tp. change (s_harmony_events (cstate true T evs)) with evs.
       rewrite cstate_upd, cur_cstate.
       eexists. eexists. eexists. split; [reflexivity|]. split.
@@ -448,7 +456,7 @@ Section Chord.
     exists s', step_song ec (THarmonyEnd (plen len) (osent gate (-1)) vel) (cstate true T evs) = Ok s' /\
                R s' (cperf (set_pos U (c_start + c_l))).
   Proof.
-    intros (I1 & I2 & I3 & I4 & I5 & I6 & I7 & I8 & I9 & I10 & I11 & I12 & I13).
+    intros (I1 & I2 & I3 & I4 & I5 & I6 & I7 & I8 & I9 & I10 & I11 & I12 & Irs & I13).
     cbn [step_song]. unfold exec_harmony_end.
     change (s_harmony_flag (cstate true T evs)) with true. cbv iota. rewrite cur_cstate.
     change (s_harmony_time (cstate true T evs)) with c_tp. change (s_harmony_events (cstate true T evs)) with evs.
